@@ -134,6 +134,10 @@ int main(int argc, char *argv[])
             cf_pdu = pdu;
         }
 
+        // The datagram must at least hold the shorter control format header
+        if ((uint64_t)res < proc_bytes + AVTP_NTSCF_HEADER_LEN)
+            continue;
+
         // Check if the packet is a control format packet (i.e. NTSCF or TSCF)
         subtype = Avtp_CommonHeader_GetSubtype((Avtp_CommonHeader_t*)cf_pdu);
         if (subtype == AVTP_SUBTYPE_TSCF){
@@ -143,6 +147,10 @@ int main(int argc, char *argv[])
             proc_bytes += AVTP_NTSCF_HEADER_LEN;
             msg_length = Avtp_Ntscf_GetNtscfDataLength((Avtp_Ntscf_t*)cf_pdu);
         }
+
+        // The datagram must hold the control format and the GPC header
+        if ((uint64_t)res < proc_bytes + AVTP_GPC_HEADER_LEN)
+            continue;
 
         // Check if the control packet payload is a ACF GPC.
         acf_pdu = &pdu[proc_bytes];
@@ -156,9 +164,14 @@ int main(int argc, char *argv[])
         // Parse the GPC Packet and print contents on the STDOUT
         gpc_code = Avtp_Gpc_GetGpcMsgId((Avtp_Gpc_t*)acf_pdu);
         acf_msg_length = Avtp_Gpc_GetAcfMsgLength((Avtp_Gpc_t*)acf_pdu);
-        if (acf_msg_length * 4 <= MAX_MSG_SIZE) {
+        if (acf_msg_length * 4 <= MAX_MSG_SIZE &&
+            acf_msg_length * 4 >= AVTP_GPC_HEADER_LEN &&
+            proc_bytes + acf_msg_length * 4 <= (uint64_t)res) {
+            // The text is not necessarily NUL-terminated: print at most
+            // the bytes the message carries
             recd_msg = (char *) acf_pdu + AVTP_GPC_HEADER_LEN;
-            printf("%s : GPC Code %ld\n", recd_msg, gpc_code);
+            printf("%.*s : GPC Code %ld\n",
+                   (int)(acf_msg_length * 4 - AVTP_GPC_HEADER_LEN), recd_msg, gpc_code);
         }
     }
 
